@@ -371,7 +371,7 @@ def _gather(v, ax, idx):
         if idx.kind == "compose":
             # x[g[s]] = (x[g])[s]
             return _gather(_gather(v, a, idx.parts[0]), a, idx.parts[1])
-        return nf.gather_axis(v, a, idx.name, idx.size, perm=(idx.kind == "perm"), inverse=bool(idx.inverse))
+        return nf.gather_axis(v, a, idx.name, idx.size, perm=(idx.kind == "perm"), inverse=bool(idx.inverse), inj=bool(idx.distinct))
     raise Undecided(f"gather with {type(idx).__name__}")
 
 
@@ -799,6 +799,13 @@ def b_sum(I, args, kw):
     return acc
 
 
+def b_type(I, args, kw):
+    it = _I()
+    if len(args) == 1 and isinstance(args[0], it.Obj):
+        return it.ClassRef(args[0].cls)
+    raise Undecided("type() of a value that is not an analysed object")
+
+
 def b_getattr(I, args, kw):
     it = _I()
     try:
@@ -1007,8 +1014,23 @@ def j_setxor1d(I, args, kw):
             return it.IdxArr(f"arange(0,{blo})", blo, kind="arange", lo=D(0))
     if isinstance(a, it.IdxArr) and a.kind == "arange" and isinstance(b, it.IdxArr):
         # complement of b in arange(n), ascending (library contract of setxor1d for b subset of a)
-        return it.IdxArr(f"compl({b.name}|{a.size})", a.size - b.size, kind="generic")
+        out = it.IdxArr(f"compl({b.name}|{a.size})", a.size - b.size, kind="generic")
+        out.distinct = True          # a set complement has no repeated entries
+        return out
     raise Undecided("setxor1d")
+
+
+def j_setdiff1d(I, args, kw):
+    """setdiff1d(arange(n), b) for b a subset of arange(n): the ascending complement - the same value as setxor1d(arange(n), b)"""
+    it = _I()
+    a, b = args[0], args[1]
+    if isinstance(a, it.IdxArr) and a.kind == "arange" and (a.lo is None or D(a.lo).is_zero()) and isinstance(b, it.IdxArr):
+        out = j_setxor1d(I, [a, b], {})
+        size = kw.get("size")
+        if size is not None and it.is_num(size) and D(size) != out.size:
+            raise Undecided("setdiff1d with a size different from the complement's length (padding / truncation)")
+        return out
+    raise Undecided("setdiff1d")
 
 
 def j_slogdet(I, args, kw):
@@ -1313,7 +1335,7 @@ BUILTINS = {
     "dict": lambda I, a, k: dict(*a, **k), "zip": lambda I, a, k: list(zip(*a)),
     "sorted": lambda I, a, k: sorted(*a), "set": lambda I, a, k: set(*a),
     "abs": lambda I, a, k: abs(a[0]) if not isinstance(a[0], Val) else nf.elementwise("Abs", a[0]),
-    "sum": b_sum, "range": b_range, "enumerate": b_enumerate,
+    "sum": b_sum, "range": b_range, "enumerate": b_enumerate, "type": lambda I, a, k: b_type(I, a, k),
     "getattr": lambda I, a, k: b_getattr(I, a, k), "hasattr": lambda I, a, k: b_hasattr(I, a, k),
     "setattr": lambda I, a, k: I.setattr(a[0], a[1], a[2]),
     "any": lambda I, a, k: any(bool(I.truth(x)) for x in I.concrete_iter(a[0])),
@@ -1338,7 +1360,7 @@ EXT = {
     "jax.numpy.where": j_where, "jax.numpy.maximum": j_maximum, "jax.numpy.clip": j_clip, "jax.numpy.argsort": j_argsort, "jax.numpy.pad": j_pad, "jax.numpy.sort": j_sort, "jax.numpy.max": j_max, "jax.numpy.all": j_all,
     "jax.numpy.logical_and": j_logical_and, "jax.numpy.logical_or": j_logical_or, "jax.numpy.logical_not": j_logical_not, "jax.numpy.greater_equal": _cmp0("Ge"),
     "jax.numpy.less_equal": _cmp0("Le"), "jax.numpy.equal": _cmp0("Eq"), "jax.numpy.isfinite": j_isfinite,
-    "jax.numpy.squeeze": j_squeeze, "jax.numpy.ix_": j_ix, "jax.numpy.setxor1d": j_setxor1d,
+    "jax.numpy.squeeze": j_squeeze, "jax.numpy.ix_": j_ix, "jax.numpy.setxor1d": j_setxor1d, "jax.numpy.setdiff1d": j_setdiff1d,
     "jax.numpy.exp": _elementwise("Exp"), "jax.numpy.log": _elementwise("Log"), "jax.numpy.sqrt": _elementwise("Sqrt"),
     "jax.numpy.cosh": _elementwise("Cosh"), "jax.numpy.tanh": _elementwise("Tanh"), "jax.numpy.abs": _elementwise("Abs"),
     "jax.numpy.round": _elementwise("Round"), "jax.numpy.sign": _elementwise("Sign"),
